@@ -191,6 +191,7 @@ MALFORMED = ["#include", "#include ", "#include B C", "#includeB", " #include B"
              "#include\rB", "#include B\r", "x #include B", "#include\t\tB\tz", "#includeB C"]
 NAMES = "ABCDEFGHIJKL"
 LINEBUF = [2048]        # the reader's buffer size, set by run() from the constants regenerated from /repo
+TOPFD = [0]             # 0: read_wcoll closes its file; else the number of file sources that exhaust NOFILE_DEFAULT (probed)
 NOFILE_DEFAULT = 40     # RLIMIT_NOFILE of every `-Q` observation (deepest generated include chain: 12 files)
 
 
@@ -777,6 +778,15 @@ def pinned_cases(base, linebuf):
                 s, w, e = [("w", "z[1-3]")] + [("x", "site/all")], ["z[1-3]", ("x", "^site/all")], None
             c = add("descriptors:%s:%s" % (shape, kind), d, s, w, env=e, stream="wide", shape=shape, nofile=limit)
             c["duplicates"] = k
+    # the streams read_wcoll opens ITSELF (one per ^file / -x ^file / WCOLL): many file sources on one command line
+    tf = {"t/A": (True, "a1\n"), "t/B": (True, "b1\n")}
+    for kfiles in (20, 60):
+        add("descriptors:top-files:%d" % kfiles, tf, [("f", "t/A")] * kfiles, [",".join(["^t/A"] * kfiles)], stream="wide",
+            shape="top-files")
+        add("descriptors:top-files-separate:%d" % kfiles, tf, [("f", "t/A"), ("f", "t/B")] * (kfiles // 2),
+            ["^t/A", "^t/B"] * (kfiles // 2), stream="wide", shape="top-files")
+        add("descriptors:top-xfiles:%d" % kfiles, tf, [("w", "z1,a1")] + [("x", "t/B")] * kfiles,
+            ["z1,a1", ("x", ",".join(["^t/B"] * kfiles))], stream="wide", shape="top-files")
     return out
 
 
@@ -1037,7 +1047,7 @@ def judge(ctx, pdsh, cases, mode, linebuf):
 
     def predicted_bytes(ml):
         f = ml.split(" ")
-        if len(f) != 6 or f[0] != "ok":
+        if len(f) != 7 or f[0] != "ok":
             return 0
         return sum(len(h) + 1 for e in unl(f[3]) for h in expand_expr(e))   # (before exclusion: an upper bound)
     def spec_bytes(c):
@@ -1071,8 +1081,20 @@ def judge(ctx, pdsh, cases, mode, linebuf):
             continue
         # ---------------- correspondence: model vs real
         mf = ml.split(" ")
-        if len(mf) != 6:
+        # F10-TOPFD mirrored: read_wcoll leaves the stream of every file source open; the model's ghost count says how
+        # many, the probe (TOPFD[0]: the number of file sources at which the real pdsh runs out under 40 descriptors)
+        # says when that is too many
+        exhausted = False
+        if len(mf) == 7 and TOPFD[0] and r.get("nofile"):
+            exhausted = int(mf[6]) >= TOPFD[0] - (NOFILE_DEFAULT - r["nofile"])
+        res_top = out[-1]
+        res_top["top_open"] = int(mf[6]) if len(mf) == 7 else None
+        if len(mf) != 7:
             v.append(("disagreement", "model answer", ml[:200]))
+        elif exhausted:
+            if not (r["rc"] == 1 and r["emfile"]):
+                v.append(("disagreement", "descriptors", "model: %s streams left open by read_wcoll exhaust the limit %s, real rc=%s %s" %
+                          (mf[6], r["nofile"], r["rc"], r["err"][-100:])))
         else:
             status, nwarn, created, exprs = mf[0], int(mf[1]), mf[2], unl(mf[3])
             mhosts = target_hosts(exprs, unl(mf[4]))
@@ -1116,6 +1138,9 @@ def judge(ctx, pdsh, cases, mode, linebuf):
             elif not hosts:
                 if r["rc"] != 1 or not r["nohosts"]:
                     bad = ("empty-list", "no hosts named, pdsh rc=%s" % r["rc"])
+            elif r["rc"] != 0 and exhausted and r["emfile"]:
+                bad = ("descriptor-leak:top-level-files", "all %d file sources are readable but pdsh exits %s under RLIMIT_NOFILE=%s: %s "
+                       "(read_wcoll never closes the file it opened)" % (int(mf[6]), r["rc"], r["nofile"], r["err"][-120:]))
             elif r["rc"] != 0:
                 bad = ("spurious-error", "all sources readable but pdsh exits %s: %s" % (r["rc"], r["err"][-200:]))
             elif r["hosts"] != hosts:
@@ -1204,6 +1229,19 @@ def run(ctx):
         # F: every fgets piece parsed on its own (D12); G: the repaired reader AS WRITTEN — pieces of the same buffer
         # glued until one holds a newline (byte-level model; Props/C10 `glued_pieces_whole`: = whole lines)
         mode = ("F%d" % linebuf) if splits else ("G%d" % linebuf)
+        # F10-TOPFD: does read_wcoll leave the file it opened open?  the smallest number of `^file` sources on one
+        # command line that runs out of NOFILE_DEFAULT descriptors (none up to 64: it closes them)
+        TOPFD[0] = 0
+        for kf in (64, 40, 39, 38, 37, 36, 35, 34, 33, 32, 31, 30, 28, 24, 16):
+            pc = {"stream": "probe", "disk": {"A": (True, "a1\n")}, "fs": {}, "sources": [], "wargs": [",".join(["^A"] * kf)],
+                  "stdin": None, "env": None, "casedir": os.path.join(base, "probe")}
+            pr2 = run_real(pdsh, pc)
+            if pr2["rc"] == 1 and pr2["emfile"]:
+                TOPFD[0] = kf
+            else:
+                break
+        if not TOPFD[0]:
+            mode += "+c"
         # the small expander agrees with the real parser on the generator's expressions
         for e in EXPRS + ["w[2-3]", "v[1,4]z"]:
             word = e.split("#")[0].strip(" \t")
@@ -1252,7 +1290,8 @@ def run(ctx):
                                       "fs": {"A": (True, content)}, "sources": [("f", "A")], "wargs": ["^A"],
                                       "stdin": None, "env": None, "casedir": os.path.join(base, "b%d" % k), "nfiles": 1})
                         k += 1
-        dist = {"streams": {}, "shapes": {}, "files": {}, "rc": {}, "reader": mode, "max_line_ge_2047": 0,
+        dist = {"streams": {}, "shapes": {}, "files": {}, "rc": {}, "reader": mode,
+                "read_wcoll_leaves_its_file_open(file sources that exhaust %d descriptors)" % NOFILE_DEFAULT: TOPFD[0], "max_line_ge_2047": 0,
                 "with_stdin": 0, "with_env": 0, "skips": 0, "branches": {b: 0 for b in BRANCHES}}
         distinct = set()
         nshrunk = 0
